@@ -87,7 +87,12 @@ class Poly:
         return self.m.get((frozenset(), None), 0) if self.is_const() else None
 
     def key(self):
-        return tuple(sorted(((tuple(sorted(a, key=repr)), repr(g)), c) for (a, g), c in self.m.items()))
+        """Hashable canonical form from which the polynomial can be rebuilt (see from_key)."""
+        return tuple(sorted((((tuple(sorted(a, key=repr)), g), c) for (a, g), c in self.m.items()), key=repr))
+
+    @staticmethod
+    def from_key(key):
+        return Poly({(frozenset(a), g): c for (a, g), c in key})
 
     def atoms(self):
         s = set()
@@ -701,7 +706,7 @@ class Interp:
         if d == "common::utils::write_var_int":
             arg = as_poly(self.eval(fr, args[1]), "write_var_int argument")
             self.written = self.written + g_varint(arg)
-            self.trace.append(("varint", repr(arg)))
+            self.trace.append(("item", "write_var_int", None, None, repr(arg)[:200]))
             self.assumptions.add("write_var_int(n) writes exactly var_int_len(n) bytes (C15 T-varint: base-128 groups, stop at quotient 0)")
             return UNIT
         tr = fn.get("trait") or ""
@@ -753,6 +758,17 @@ class Interp:
         callee = self.F.fns.get(res)
         if callee is not None and fn.get("krate") == self.F.data["crate"]:
             vals = [self.eval(fr, a) for a in args]
+            if res.startswith("common::utils::write_") and len(args) == 2:
+                # one wire item: remember what is written (constant or source expression) and from where
+                t0 = len(self.trace)
+                r = self.run_fn(res, vals)
+                del self.trace[t0:]
+                from tables import const_eval as _ce
+                cv = _ce(args[1])
+                src = vals[1]
+                self.trace.append(("item", name, cv, fmt_path(src.path) if isinstance(src, PathVal) else None,
+                                   pp(strip(args[1]))[:120]))
+                return r
             return self.run_fn(res, vals)
         # pure foreign helpers with no writer argument
         for a in args:
@@ -860,7 +876,7 @@ def _gen_arg_zero(g):
     key = g[1]
     const = 0
     for (atoms, gg), c in key:
-        if not atoms and gg == "None":
+        if not atoms and gg is None:
             const += c
     return const < 128
 
